@@ -843,6 +843,36 @@ func fdsDirect(seed uint64, tier string, args []string, w *bufio.Writer) {
 			}
 			return err
 		}},
+		// Open on every kind of path open(2) may accept or refuse: whatever Open answers, nothing stays open once the File it may
+		// have returned is closed
+		{"fail.open-directory", func() error {
+			var last error
+			for _, fl := range []int{os.O_RDONLY, os.O_RDONLY | syscall.O_DIRECTORY, os.O_WRONLY, os.O_RDONLY | syscall.O_NONBLOCK, os.O_RDWR} {
+				f, err := sonic.Open(ioc, os.TempDir(), fl, 0)
+				if err == nil {
+					f.Close()
+				} else {
+					last = err
+				}
+			}
+			return last
+		}},
+		{"fail.open-special", func() error {
+			var last error
+			for _, pf := range []struct {
+				path string
+				fl   int
+			}{{"/dev/null", os.O_RDONLY | syscall.O_DIRECTORY}, {"/proc/self/status", os.O_WRONLY}, {"/dev/zero", os.O_RDONLY},
+				{"/proc/self/fd", os.O_RDONLY}, {"/", os.O_RDONLY}, {"/dev/null/x", os.O_RDONLY}, {strings.Repeat("a", 5000), os.O_RDONLY}} {
+				f, err := sonic.Open(ioc, pf.path, pf.fl, 0)
+				if err == nil {
+					f.Close()
+				} else {
+					last = err
+				}
+			}
+			return last
+		}},
 		{"fail.accept-wouldblock", func() error {
 			l, err := sonic.Listen(ioc, "tcp", "127.0.0.1:0", sonicopts.Nonblocking(true))
 			if err != nil {
